@@ -255,6 +255,24 @@ func adapters(r *lib.Report) (int64, int64) {
 			bad("currydef", "CurryDef done at %d args: invocations %v result %q done %v %s; want invocations %v", doneAt, seen, c.Result(), c.IsDone(), p, want)
 		}
 	}
+	// the interface{} constructor CurryNew, and two instances from the same function value (independent argument lists)
+	{
+		var seen []string
+		fn := func(c *fpgo.CurryDef[interface{}, interface{}], a ...interface{}) interface{} {
+			seen = append(seen, fmt.Sprint(a))
+			if len(a) >= 2 {
+				c.MarkDone()
+			}
+			return fmt.Sprint(a)
+		}
+		c1, c2 := fpgo.CurryNew(fn), fpgo.CurryNew(fn)
+		p := lib.Catch(func() { c1.Call(1); c2.Call("x"); c1.Call(2); c2.Call("y"); c1.Call(3) })
+		trans++
+		states++
+		if p != "" || fmt.Sprint(seen) != "[[1] [x] [1 2] [x y]]" || fmt.Sprint(c1.Result()) != "[1 2]" || fmt.Sprint(c2.Result()) != "[x y]" || !c1.IsDone() || !c2.IsDone() {
+			bad("currydef", "two CurryNew instances of one function: invocations %v, results %v / %v %s", seen, c1.Result(), c2.Result(), p)
+		}
+	}
 	return states, trans
 }
 
@@ -323,6 +341,16 @@ func patterns(r *lib.Report, tier string, samples *[]interface{}) (int64, int64)
 		p := lib.Catch(func() { cd = fpgo.NewCompData(sumT, tp...) })
 		if p != "" || (cd != nil) != sumAcceptsObjects(tp) {
 			r.Violation("C20|compdata|new", fmt.Sprintf("NewCompData(Sum(Product(Int,String),Nil), %v) = %v %s, arguments match: %v", tp, cd != nil, p, sumAcceptsObjects(tp)), map[string]interface{}{"args": fmt.Sprint(tp)})
+		}
+		if cd != nil {
+			// the two match functions agree with the declared types for the value just built
+			trans++
+			var m1, m2, o1 bool
+			if p := lib.Catch(func() {
+				m1, m2, o1 = fpgo.MatchCompType(sumT, *cd), fpgo.MatchCompTypeRef(sumT, cd), fpgo.MatchCompType(otherT, *cd)
+			}); p != "" || !m1 || !m2 || o1 != (len(tp) == 1 && kindRef(tp[0]) == reflect.Bool && !isNilRef(tp[0])) {
+				r.Violation("C20|compdata|match", fmt.Sprintf("CompData%v of Sum(Product(Int,String),Nil): MatchCompType=%v MatchCompTypeRef=%v, against Sum(Product(Bool)): %v %s", tp, m1, m2, o1, p), map[string]interface{}{"args": fmt.Sprint(tp)})
+			}
 		}
 	}
 	matching := fpgo.NewCompData(sumT, 1, "a")
